@@ -202,21 +202,22 @@ fn check(ncodes: usize, maxw: usize, want_c03: bool) {
     let nv: usize = kani::any();
     let nl: usize = kani::any();
     kani::assume(nv < 2 && nl < 2);
-    let mut hit = false;
+    // arenas are reused across nesting pairs: `build` overwrites exactly the cells it links
+    let mut a1 = Arena::new();
+    let mut a2 = Arena::new();
     let mut iv = 0usize;
     while iv < ncodes {
         let cv = CODES[iv];
-        if let Some(mut vs) = shape_of_code(cv) {
-            if sv == cv && vs.n <= maxw {
+        if sv == cv {
+            if let Some(mut vs) = shape_of_code(cv) {
+                vs.name = nv;
                 let mut il = 0usize;
                 while il < ncodes {
                     let cl = CODES[il];
-                    if let Some(mut ls) = shape_of_code(cl) {
-                        if sl == cl && ls.n <= maxw {
-                            vs.name = nv;
+                    if sl == cl {
+                        if let Some(mut ls) = shape_of_code(cl) {
+                            assert!(vs.n <= maxw && ls.n <= maxw);
                             ls.name = nl;
-                            let mut a1 = Arena::new();
-                            let mut a2 = Arena::new();
                             let v = build(&mut a1, &vs);
                             let l = build(&mut a2, &ls);
                             let got = check_type_compatibility(&v, &l);
@@ -237,11 +238,8 @@ fn check(ncodes: usize, maxw: usize, want_c03: bool) {
                             kani::cover!(got && vs.n > ls.n, "accepted with a stricter (more non-null) variable type");
                             kani::cover!(!got && nv == nl && vs.n == ls.n, "rejected although names and depth agree");
                             kani::cover!(got && vs.n == maxw && ls.n == maxw, "accepted at full depth");
-                            hit = true;
                             core::mem::forget(v);
                             core::mem::forget(l);
-                            core::mem::forget(a1);
-                            core::mem::forget(a2);
                         }
                     }
                     il += 1;
@@ -250,7 +248,8 @@ fn check(ncodes: usize, maxw: usize, want_c03: bool) {
         }
         iv += 1;
     }
-    let _ = hit;
+    core::mem::forget(a1);
+    core::mem::forget(a2);
 }
 
 // codes < 3^(d+1) cover every nesting of depth <= d
